@@ -176,6 +176,78 @@ theorem deregisterBroker_eq (E : List Addr → Int) (EB : List (Int × Addr) →
     · simp [Gen.C15.deregisterBroker, deregisterKnown, h]
     · simp [Gen.C15.deregisterBroker, deregisterKnown, h]
 
+/-! ### clause bodies of `switch topic.Err` (loop-body fragment; leading Int: 0 = falls through to the store
+       part, 1 = `continue`) -/
+theorem topicSwitch_eq (terr err : Int) (retry : Bool) :
+    Gen.C15.topicSwitch terr err retry =
+      match topicClass terr with
+      | .store => (0, err, retry)
+      | .storeRetry => (0, err, true)
+      | .forget => (1, terr, retry)
+      | .forgetRetry => (1, terr, true) := by
+  unfold Gen.C15.topicSwitch topicClass errNone errInvalidTopic errTopicAuthorizationFailed
+    errUnknownTopicOrPartition errLeaderNotAvailable
+  by_cases h0 : terr = 0
+  · simp [h0]
+  · by_cases h1 : terr = 17 ∨ terr = 29
+    · simp [h0, h1]
+    · by_cases h3 : terr = 3
+      · simp [h3]
+      · by_cases h5 : terr = 5
+        · simp [h5]
+        · simp [h0, h1, h3, h5]
+
+/-- … and the model's per-topic step is that switch followed (when it does not `continue`) by the store part:
+    the topic is kept exactly when the switch falls through, `err` is the switch's, `retry` the switch's or-ed
+    with the leaderless-partition test of the store loop. -/
+theorem applyTopic_by_switch (a : Acc) (tm : TopicMeta) :
+    ((Gen.C15.topicSwitch tm.err a.err a.retry).1 = 0 ↔ (topicClass tm.err).stores = true) ∧
+    (applyTopic a tm).err = (Gen.C15.topicSwitch tm.err a.err a.retry).2.1 ∧
+    (applyTopic a tm).retry =
+      ((Gen.C15.topicSwitch tm.err a.err a.retry).2.2 || ((topicClass tm.err).stores && partsRetry tm.parts)) ∧
+    (applyTopic a tm).s =
+      if (Gen.C15.topicSwitch tm.err a.err a.retry).1 = 0 then storeTopic (forgetTopic a.s tm.name) tm
+      else forgetTopic a.s tm.name := by
+  rw [topicSwitch_eq]
+  unfold applyTopic
+  cases topicClass tm.err <;> simp [TopicClass.stores]
+
+/-! ### tryRefreshMetadata: a KError from GetMetadata (leading Int: 3 = `return err`, 0 = falls off the clause
+       after `deregisterBroker`) -/
+theorem kerrorVerdict_eq (e : Int) :
+    Gen.C15.kerrorVerdict e false true =
+      if kerrorDeregisters e then (0, 0, true) else (3, e, false) := by
+  unfold Gen.C15.kerrorVerdict kerrorDeregisters errSASLAuthenticationFailed errTopicAuthorizationFailed
+  by_cases h1 : e = 58
+  · simp [h1]
+  · by_cases h2 : e = 29
+    · simp [h2]
+    · simp [h1, h2]
+
+/-- exactly ErrSASLAuthenticationFailed and ErrTopicAuthorizationFailed are returned at once (the model's
+    `Reach.fatal`); every other KError sets the candidate aside (`Reach.fail`) -/
+theorem kerror_fatal_iff (e : Int) :
+    (Gen.C15.kerrorVerdict e false true).1 = 3 ↔ (e = errSASLAuthenticationFailed ∨ e = errTopicAuthorizationFailed) := by
+  rw [kerrorVerdict_eq]
+  unfold kerrorDeregisters errSASLAuthenticationFailed errTopicAuthorizationFailed
+  by_cases h1 : e = 58
+  · simp [h1]
+  · by_cases h2 : e = 29
+    · simp [h2]
+    · simp [h1, h2]
+
+/-! ### tryRefreshMetadata: a candidate answered -/
+/-- the response is applied as a full refresh exactly when no topics were asked for; the call returns
+    `retry(err)` when updateMetadata wants a retry and its `err` otherwise — the model's `attempt` on an answer:
+    (state, retry wanted, `fromUpdate err`). -/
+theorem answeredVerdict_eq (nTopics retried : Int) (akm0 : Bool) (s : State) (r : Resp) :
+    Gen.C15.answeredVerdict nTopics akm0 retried
+        (updateMetadata s r (decide (nTopics = 0))).retry (updateMetadata s r (decide (nTopics = 0))).err =
+      (if (updateMetadata s r (decide (nTopics = 0))).retry then retried
+       else (updateMetadata s r (decide (nTopics = 0))).err, decide (nTopics = 0)) := by
+  unfold Gen.C15.answeredVerdict
+  cases (updateMetadata s r (decide (nTopics = 0))).retry <;> simp
+
 /-! ### lock discipline (presence facts) -/
 /-- Each of these definitions is generated from the lock / deferred-unlock statement of the named function and
     exists only if that statement is in the source: `updateMetadata`, `deregisterBroker` and `resurrectDeadBrokers`
